@@ -29,7 +29,7 @@ def main(tier, seed, args):
     rep.assumptions = ['block_added handling is atomic here (update_height itself is C20)', 'node + tokio contracts',
                        '"held when the payment was initiated" = listeners registered when the lifecycle reads the table after payment_ready']
     rep.trusted = ['mirsym', 'z3', 'node model', 'tokio contracts']
-    budget = 110 if tier == 'quick' else 1500
+    budget = 440 if tier == 'quick' else 3000
     configs = []
     n, b = (2, 1) if tier == 'quick' else (3, 2)
     cfg, pc = cfg_symbolic(n, b)
